@@ -57,6 +57,15 @@ CHECKS = {
             'for conflicts / reserved names) while the un-faulted control constructs and serves.',
             'the matrix is complete only for the listed source kinds and placements; same-kind resource overlaps are not asserted',
             'DESIGN.md §4 C04'),
+    'C08': ('fault_enumeration',
+            'complete behaviour x position x handler product on fixed middleware stacks + Hypothesis-generated stacks and request histories, status oracle written from the statement',
+            'Each of ~160 behaviours (raise 18 exception kinds, raise/return every exported HTTPException breaking and '
+            'non-breaking, return Response and 9 non-Response values) is placed at every position of fixed stacks under 5 '
+            'error handlers (complete product); Hypothesis varies stack shape, Accept, method and builds histories. The WSGI '
+            'call must return one well-formed response with the predicted status, exceptions escape only under the re-raising '
+            'handler (and are the original object), and a probe request is answered identically afterwards.',
+            'status oracle is hand-written from the statement; BaseExceptions and streaming-body failures are not generated',
+            'DESIGN.md §4 C08'),
 }
 
 PENDING_REASON = 'check not built yet in this session (planned, see DESIGN.md §4); not claimed until it runs quietly on the unchanged tree'
